@@ -6,7 +6,9 @@
 // cfg_key_hyp, spec/cfgbuild.rs).
 // ---------------------------------------------------------------------------
 
-use std::collections::{BTreeMap, HashMap, HashSet};
+// (glob of a tiny module instead of a plain `use`: no E0252 clash with shim/callgraph_build.rs when a unit imports both, HOWTO)
+pub mod cfg_std { pub use std::collections::{BTreeMap, HashMap, HashSet}; }
+pub use cfg_std::*;
 
 // ---- petgraph ------------------------------------------------------------------------------------------------
 
